@@ -17,13 +17,13 @@ def plan(tier):
     for n in ([1, 2] if q else [1, 2, 3]):
         I.append(inst(f"segment[n={n}]", 'harness.c12', 'segment', dict(n=n, circle=False), weight=40 * n, timeout_s=1200))
     if not q:
-        I.append(inst("segment+circle[n=2]", 'harness.c12', 'segment', dict(n=2, circle=True), weight=400, timeout_s=2400))
+        I.append(inst("segment+circle[n=2]", 'harness.c12', 'segment', dict(n=2, circle=True), weight=400, timeout_s=1500))
     I.append(inst("tangent-direction[n=1,composite(2,)]", 'harness.c12', 'tangent_composite', dict(n=1), weight=30, timeout_s=900))
     if not q:
-        I.append(inst("tangent-direction[n=2,composite(2,)]", 'harness.c12', 'tangent_composite', dict(n=2), weight=200, timeout_s=2400))
+        I.append(inst("tangent-direction[n=2,composite(2,)]", 'harness.c12', 'tangent_composite', dict(n=2), weight=200, timeout_s=1500))
     I.append(inst("origin_to[n=1]", 'harness.c12', 'origin_to', dict(n=1), weight=5, timeout_s=600))
     if not q:
-        I.append(inst("origin_to[n=2]", 'harness.c12', 'origin_to', dict(n=2), weight=400, timeout_s=3000))
+        I.append(inst("origin_to[n=2]", 'harness.c12', 'origin_to', dict(n=2), weight=400, timeout_s=1500))
     return dict(
         instances=I,
         explanation=("bounded symbolic verification of scale-freeness: every input point's homogeneous vector is multiplied, unit by unit, by its own "
